@@ -2240,9 +2240,15 @@ func (self *Aof) GetAofLockExpriedTime(lockCommand *protocol.LockCommand, lock *
 	if lockCommand.ExpriedFlag&protocol.EXPRIED_FLAG_MINUTE_TIME != 0 {
 		expriedTimeSeconds := lock.expriedTime - int64(aofLock.CommandTime)
 		if expriedTimeSeconds >= 60 && expriedTimeSeconds%60 == 0 {
+			if expriedTimeSeconds/60 > 0xffff {
+				return 0xffff
+			}
 			return uint16(expriedTimeSeconds / 60)
 		}
 		if expriedTimeSeconds > 0 {
+			if expriedTimeSeconds/60+1 > 0xffff {
+				return 0xffff
+			}
 			return uint16(expriedTimeSeconds/60) + 1
 		}
 		return 0
@@ -2250,6 +2256,9 @@ func (self *Aof) GetAofLockExpriedTime(lockCommand *protocol.LockCommand, lock *
 	if lock.expriedTime > 0 {
 		expriedTimeSeconds := lock.expriedTime - int64(aofLock.CommandTime)
 		if expriedTimeSeconds > 0 {
+			if expriedTimeSeconds > 0xffff {
+				return 0xffff
+			}
 			return uint16(expriedTimeSeconds)
 		}
 		return 0
